@@ -18,6 +18,7 @@ namespace sim
       SET_COV = 5,    // coverage (state_control)
       SET_BUF1 = 7,   // sim_buf< 1 >
       SET_BUF64 = 8,  // sim_buf< 64 >
+      // 20 .. 29: stock input classes of the I/O jobs, see io.hpp
    };
 
    struct Case
